@@ -111,6 +111,9 @@ Section DapSpec.
         end
     end.
 
-  (* no instruction jumps to itself (a `jmp *` loop): the guard of the breakpoint theorem *)
-  Definition no_self_loop : Prop := forall c, fin c = false -> pc (step c) <> pc c.
+  (* the instruction the CPU is about to execute jumps to itself (a `jmp *` loop): class of the known finding *)
+  Definition Known_breakpoint_self_loop (c : cpu) : bool := pc (step c) =? pc c.
+
+  (* the guard of the breakpoint theorem: the program never executes such an instruction *)
+  Definition no_self_loop : Prop := forall c, fin c = false -> Known_breakpoint_self_loop c = false.
 End DapSpec.
